@@ -291,6 +291,10 @@ def npoints_of(l):
 
 
 # --------------------------------------------------------------------------
+def max_tasks_of(spec):
+    return spec["ntasks"] or spec.get("ncores", 1)
+
+
 class Ctx:
     """State of one controlled run."""
 
@@ -468,9 +472,10 @@ class Ctx:
             # keep away from the documented oddity (spin / asyncio.wait([]))
             met = True
             self.exhausted_stop = True
-        if not met and self.goal_calls > 400:
+        limit = 20 + 2 * (self.spec["retries"] + 1) * (self.spec["goal"] + max_tasks_of(self.spec) + 8)
+        if not met and self.goal_calls > limit:
             met = True
-            self.machinery.append("run did not terminate within 400 iterations")
+            self.machinery.append(f"run did not reach its goal within {limit} iterations")
         self.open(("goal", met))
         return met
 
@@ -914,6 +919,17 @@ class Collector:
                       "stopped_with_outstanding_futures": 0, "late_results_at_shutdown": 0,
                       "oracle_failures": 0}
         self.n = 0
+        self.sig_count = {}
+        self.bad = 0
+
+    def enough(self):
+        """The verdict is settled: stop generating (keeps a broken tree from costing hours)."""
+        return self.bad >= 150
+
+    def _cap(self, sig):
+        self.bad += 1
+        self.sig_count[sig] = self.sig_count.get(sig, 0) + 1
+        return self.sig_count[sig] <= 3
 
     def add(self, rec: Rec, origin: str, coq=True):
         chk, st = self.chk, self.stats
@@ -935,11 +951,14 @@ class Collector:
         if len(rec.steps) > 5 and self.nontrivial(rec, ft):
             chk.sample({"spec": spec_summary(rec.spec), "events": [_ev_summary(s["ev"]) for s in rec.steps][:14]})
         for m in rec.machinery[:1]:
-            chk.broke("machinery", f"controlled scheduler inconsistent ({origin})", {"what": m, **replay_doc(rec)})
+            if self._cap("machinery"):
+                chk.broke("machinery", f"controlled scheduler inconsistent ({origin}): {m}", {"what": m, **replay_doc(rec)})
         for fn in self.oracles:
             errs = fn(rec)
             for clause, msg in errs[:1]:
                 st["oracle_failures"] += 1
+                if not self._cap(clause):
+                    continue
                 chk.fail(f"{self.prop}:{clause}",
                          f"{rec.spec['kind']} runner, learner={rec.spec['learner']}, ntasks={rec.spec['ntasks'] or None}, "
                          f"retries={rec.spec['retries']}, raise={rec.spec['raise']}: {msg}",
@@ -960,6 +979,7 @@ class Collector:
         self.nbatch += 1
         for e in errors:
             chk.broke("correspondence", "Model/Runner.v cases could not be evaluated", e)
+        self.bad += len(mism)
         for ci, si in mism[:5]:
             m = self.metas[ci]
             chk.broke("correspondence", f"Model/Runner.v vs adaptive.runner: case {m['origin']} step {si}",
